@@ -408,6 +408,7 @@ impl AdjacencyMap {
             lemma_rows_sum_bound(*self, order as int);
             lemma_map_pair_count(*self);
             assert(order * (order - 1) == order * order - order) by (nonlinear_arith) requires order >= 1;
+            assert((order - 1) * order == order * (order - 1)) by (nonlinear_arith) requires order >= 1;  // robust against commuted operands
             assert(self.arc_count() <= order * (order - 1));
         }
     @loop 1
@@ -500,6 +501,7 @@ impl AdjacencyMap {
             lemma_rows_sum_bound(*self, order as int);
             lemma_map_pair_count(*self);
             assert(order * (order - 1) == order * order - order) by (nonlinear_arith) requires order >= 1;
+            assert((order - 1) * order == order * (order - 1)) by (nonlinear_arith) requires order >= 1;  // robust against commuted operands
             assert(self.arc_count() <= order * (order - 1));
         }
     @loop 1
@@ -599,6 +601,7 @@ impl AdjacencyMap {
             lemma_rows_sum_bound(*self, order as int);
             lemma_map_pair_count(*self);
             assert(order * (order - 1) == order * order - order) by (nonlinear_arith) requires order >= 1;
+            assert((order - 1) * order == order * (order - 1)) by (nonlinear_arith) requires order >= 1;  // robust against commuted operands
             assert(self.arc_count() <= order * (order - 1));
         }
     @loop 1
@@ -691,6 +694,7 @@ impl AdjacencyMap {
             lemma_rows_sum_bound(*self, order as int);
             lemma_map_pair_count(*self);
             assert(order * (order - 1) == order * order - order) by (nonlinear_arith) requires order >= 1;
+            assert((order - 1) * order == order * (order - 1)) by (nonlinear_arith) requires order >= 1;  // robust against commuted operands
             assert(self.arc_count() <= order * (order - 1));
         }
     @loop 1
